@@ -177,8 +177,13 @@ def _stmt_of(node):
 def inline_new_helpers(mod, pinned):
     """Expand calls of helpers that do not exist on the pinned tree.  Returns number of expansions."""
     new = {}
+    # a function that carries the name of a pinned function of this module was moved (nested helper <-> method <-> module level), not introduced:
+    # the rules know it by that name, so it stays a function of the view
+    pinned_names = set(k.rsplit(".", 1)[-1] for k in pinned if not k.startswith("__"))
     for q, lst in mod.defs.items():
         fn = lst[-1]
+        if isinstance(fn, FUNC_TYPES) and q not in pinned and fn.name in pinned_names:
+            continue
         if isinstance(fn, FUNC_TYPES) and q not in pinned and "." in q and not any(isinstance(a, FUNC_TYPES) for a in [parent(fn)]):
             cls = parent(fn)
             if isinstance(cls, ast.ClassDef):
